@@ -10,7 +10,7 @@ def b01 (b : Bool) : String := if b then "1" else "0"
   showList (fun l => toString (σ l)) qs
 
 @[noinline] def perturb (σ : Store) (P : List Nat) (delta : Int) : Store :=
-  ⟨fun l => if P.contains l.1 then σ l + delta else σ l⟩
+  ⟨fun l => if P.contains l.1 then σ l + delta + 31 * (l.1 : Int) + 3 * l.2.1 + 7 * l.2.2 else σ l⟩
 
 @[noinline] def replay (σ : Store) (region : Stmt) (P : List Nat) (delta : Int) (qs : List Loc) : String :=
   let τ := perturb σ P delta
